@@ -76,24 +76,34 @@ func isPathSepString(v ssa.Value) bool {
 	return false
 }
 
-// docKeyComponents reads the format of generateDocName: number of %s components separated by %c.
+// docKeyComponents reads how generateDocName builds a key: the number of parameter components
+// separated by the path separator.
 func docKeyComponents(p *core.Prog) (int, bool) {
 	fn := p.Func(v2pkg, "(*Classifier).generateDocName")
 	if fn == nil {
 		return 0, false
 	}
-	for _, call := range core.CallsIn(fn) {
-		if core.StaticCalleeName(call.Common()) == "fmt.Sprintf" {
-			if f, ok := core.ConstString(call.Common().Args[0]); ok {
-				parts := strings.Split(f, "%c")
-				for _, pt := range parts {
-					if pt != "%s" {
-						return 0, false
-					}
+	for _, b := range fn.Blocks {
+		ret, ok := b.Instrs[len(b.Instrs)-1].(*ssa.Return)
+		if !ok || len(ret.Results) != 1 {
+			continue
+		}
+		pieces, ok := keyPieces(fn, ret.Results[0])
+		if !ok {
+			return 0, false
+		}
+		n := 0
+		for i, pc := range pieces {
+			if i%2 == 0 {
+				if !strings.HasPrefix(pc, "P") {
+					return 0, false
 				}
-				return len(parts), true
+				n++
+			} else if pc != "SEP" {
+				return 0, false
 			}
 		}
+		return n, len(pieces)%2 == 1
 	}
 	return 0, false
 }
